@@ -8,11 +8,11 @@ cd "$W" || exit 2
 export CARGO_NET_OFFLINE=true CARGO_TARGET_DIR=$W/target
 FEAT=""; [ -n "$F" ] && FEAT="--features $F"
 mv tests/seed_demo.rs /tmp/seed_demo_$$.rs
-suite=$(cargo test --offline --workspace 2>&1 | grep -E "^test result" | awk '{p+=$4; f+=$6} END {print p" passed "f" failed"}')
+suite=$(cargo test --offline --workspace 2>&1 | grep -aE "^test result" | awk '{p+=$4; f+=$6} END {print p" passed "f" failed"}')
 mv /tmp/seed_demo_$$.rs tests/seed_demo.rs
-with=$(cargo test --offline $FEAT --test seed_demo 2>&1 | grep -E "^test result" | tail -1)
+with=$(cargo test --offline $FEAT --test seed_demo 2>&1 | grep -aE "^test result" | tail -1)
 git apply -R patch.diff || { echo 'cannot reverse patch.diff'; exit 2; }
-without=$(cargo test --offline $FEAT --test seed_demo 2>&1 | grep -E "^test result" | tail -1)
+without=$(cargo test --offline $FEAT --test seed_demo 2>&1 | grep -aE "^test result" | tail -1)
 git apply patch.diff
 echo "suite_with_change: $suite"
 echo "demo_with_change: $with"
